@@ -80,6 +80,23 @@ def regen_genc10():
         shutil.rmtree(d, ignore_errors=True)
 
 
+def regen_genc10rb(info):
+    """(changed, error): coq/C10/GenC10Rb.v from props/C10/gen_c10rb.c (#includes dir_reader.c, linked with the library)"""
+    try:
+        g = B.compile_harness(info, [os.path.join(HERE, "gen_c10rb.c")], "gen_c10rb", extra=["-w"])
+    except Exception as e:
+        return False, "props/C10/gen_c10rb.c does not compile against the working tree: %s" % (str(e)[-1200:],)
+    rc, txt = core.sh([g], env=dict(os.environ, ASAN_OPTIONS="detect_leaks=0"))
+    if rc != 0 or "Definition c10rb_sample_data" not in txt:
+        return False, "gen_c10rb failed (rc %s): %s" % (rc, txt[-500:])
+    dst = os.path.join(core.COQ, "C10", "GenC10Rb.v")
+    old = open(dst).read() if os.path.exists(dst) else None
+    if old != txt:
+        open(dst, "w").write(txt)
+        return True, None
+    return False, None
+
+
 # --------------------------------------------------------------------------
 # images
 # --------------------------------------------------------------------------
@@ -648,6 +665,16 @@ def run(ctx):
         ctx.log("GenC10Dot.v changed -> re-checking proofs")
         ctx.proof_broken[:] = [b for b in ctx.proof_broken if "GenC10" in b]
         core.prepare_proofs(ctx)
+    # shape of the dcache as an rbtree_t (sizes after the reader's own rbtree_init, one real node) -> coq/C10/GenC10Rb.v
+    changed_rb, err_rb = regen_genc10rb(info)
+    if err_rb:
+        ctx.proof_broken.append("C10/GenC10Rb.v: " + err_rb)
+    if changed_rb:
+        ctx.log("GenC10Rb.v changed -> re-checking proofs")
+        # keep only the generator errors recorded above ("C10/GenC10*.v: ..."); a proof break recorded against the stale
+        # file (its text names the library GenC10Rb) is re-established or not by the prepare_proofs that follows
+        ctx.proof_broken[:] = [b for b in ctx.proof_broken if b.startswith("C10/GenC10")]
+        core.prepare_proofs(ctx)
     h = B.compile_harness(info, [os.path.join(HERE, "h_reader.c")], "h_reader_c10")
     with core.Lock("coq"):     # everything the extraction needs, against the current Constants.vo
         core.coq_make(["C10/ApiModel.vo", "C10/DataModel.vo", "C10/ClientModel.vo", "C10/MetaModel.vo", "C10/DotModel.vo"])
@@ -681,10 +708,12 @@ def run(ctx):
                         "inodes fetched through the reader so far (documented, include/sqfs/dir_reader.h), never on the order of the "
                         "fetches; images of that leg have pairwise distinct directory inode numbers (with duplicates the first "
                         "fetch wins by design: Properties_C10.ex_dot_first_wins)",
-                        "lib/util/src/rbtree.c satisfies DotModel.rbtree_contract (finite map for every strict-total-order comparator); "
-                        "re-observed by the DOT_ENTRIES tie on trees of 64-300 keys"]
+                        "DotModel.rbtree_contract is no longer assumed: Properties_C10.rbtree_c_meets_dcache_contract proves it for the model "
+                        "of lib/util/src/rbtree.c in coq/Util (tied to the C code by the C19 check, re-observed here by the DOT_ENTRIES "
+                        "tie on trees of 64-300 keys); not modelled there: allocation failure, the mem_pool allocator"]
     ctx.trusted += ["props/C10/h_dot.c, props/C10/driver_dot.ml (DOT_ENTRIES leg: op executor long-lived / fresh-with-the-same-encounter-set, "
-                    "model glue), props/C10/gen_c10dot.c (dir_reader.c enums -> coq/C10/GenC10Dot.v)"]
+                    "model glue), props/C10/gen_c10dot.c (dir_reader.c enums -> coq/C10/GenC10Dot.v), props/C10/gen_c10rb.c (rbtree_t sizes "
+                    "of a reader the library created + the bytes of one real cache node -> coq/C10/GenC10Rb.v)"]
     # private copies: the shared build / extraction caches are pruned and rebuilt by concurrently running checks
     import shutil
     def private(path, name):
@@ -886,6 +915,7 @@ def setup():
     regen_genc10()
     try:
         dotleg.regen_gen(B.build("asan"))
+        regen_genc10rb(B.build("asan"))
         core.build_model_driver("C10dot", "ExtractC10Dot.v", os.path.join(HERE, "driver_dot.ml"),
                                 stubs_c=os.path.join(HERE, "stubs.c"), cclibs=["-lz", "-llzma", "-llz4", "-lzstd"])
     except Exception as e:
